@@ -4,6 +4,7 @@ separately in evidence; `level` is 'proof' only where every registered group is 
 
 KPY = ['gmd_py.P', 'dist_at_t_py.P']
 KPYX = ['gmd_prof_pyx.P', 'dist_at_t_prof_pyx.P']
+SPIKEP = ['spike_py.P', 'spike_ri_py.P', 'spike_pyx.P', 'spike_ri_pyx.P']
 
 
 def both(quick, extra_thorough=()):
@@ -22,11 +23,19 @@ PROPS = {
                     'the wrapper glue (kernel receives the reconciled trains, edges and MRTS; profile object built from the kernel result) bounded',
     ),
     'C02': dict(
+        assumptions=['SPIKE scan proof (spike_*.P): get_min_dist is replaced by its contract (result = the opaque nearest-spike distance MD(tau), of which '
+                     '0 <= MD(tau) <= |tau - e| for every spike e of the other train is revealed; the contract itself is proved in gmd_*.P, its precondition is an '
+                     'obligation at every call); dist_at_t is replaced by its contract (value equation, proved in dist_at_t_*.P; precondition obliged at every call); '
+                     'products / quotients of two symbolic reals are uninterpreted (MUL/DIV) with ground instances of valid real-arithmetic laws (pv/ufarith.py) - '
+                     'an abstraction that can only lose proofs, not create them'],
         title='SPIKE-profile equals the SPIKE-distance definition', level='other',
-        groups=both(KPY + KPYX + ['spike_py.B', 'spike_pyx.B']),
-        technique='contracts on get_min_dist / dist_at_t proved inductively; SPIKE scan: bounded symbolic execution of the real text against the definition',
-        explanation='get_min_dist (loop with early return) and dist_at_t are proved for all inputs; the SPIKE merge scan is executed '
-                    'symbolically with those callees replaced by their contracts, complete over all real spike times for the stated train sizes',
+        groups=both(KPY + KPYX + SPIKEP + ['spike_py.B', 'spike_pyx.B']),
+        technique='contracts on get_min_dist / dist_at_t proved inductively; SPIKE scan proved inductively (loop invariant + ghost cursors, callees by contract, '
+                  'products/quotients abstracted to uninterpreted functions with ground algebraic laws); additionally bounded symbolic execution against the literal definition',
+        explanation='get_min_dist (loop with early return) and dist_at_t are proved for all inputs; the SPIKE merge scan (py + extracted pyx, RI off/on) is proved '
+                    'for all train lengths: every segment has covering cursors a, b and its start/end values equal the C02 value built from the covering '
+                    'ISIs and the interpolated nearest-spike distances (constant outside the spikes), events strictly increasing and spike times, all cells finite; '
+                    'the same scan is also executed symbolically against the literal definition (nearest-spike distance as n-ary minimum) for the stated sizes',
     ),
     'C03': dict(
         title='SPIKE-Sync profile marks exactly the mutually coincident spikes', level='other',
@@ -56,7 +65,7 @@ PROPS = {
     ),
     'C06': dict(
         title='Multivariate = all-pairs aggregate, order independent', level='other',
-        groups=both(['plumb.forms', 'addpwc_py.P', 'addpwc_pyx.P', 'addpwl_py.B', 'addpwl_pyx.B', 'adddisc_py.B', 'adddisc_pyx.B', 'lemmas.symmetry']),
+        groups=both(['plumb.forms', 'addpwc_py.P', 'addpwc_pyx.P', 'addpwl_py.P', 'addpwl_pyx.P', 'adddisc_py.P', 'adddisc_pyx.P', 'addpwl_py.B', 'addpwl_pyx.B', 'adddisc_py.B', 'adddisc_pyx.B', 'lemmas.symmetry']),
         technique='wrappers executed on formal terms with symmetric kernel atoms; add kernels under contract',
         explanation='recursive pair halving, pair enumeration from indices, 1/M scaling, pooled sums and matrix filling are compared with the '
                     'all-pairs normal form for every ordered index subset (hence every permutation); profile addition is pointwise (C09 contracts)',
@@ -76,9 +85,9 @@ PROPS = {
     ),
     'C09': dict(
         title='Adding piecewise profiles is pointwise addition', level='other',
-        groups=both(['addpwc_py.P', 'addpwc_pyx.P', 'addpwc_py.B', 'addpwl_py.B', 'addpwl_pyx.B', 'pwc_mul.B', 'pwc_copy.B', 'pwc_add_fb.B', 'pwc_add_cy.B', 'pwl_mul.B', 'pwl_copy.B', 'pwl_add_fb.B', 'pwl_add_cy.B', 'disc_mul.B', 'disc_copy.B', 'disc_add_fb.B', 'disc_add_cy.B', 'pwc_hist_copy.B', 'pwl_hist_copy.B', 'pwc_hist_acc_fa.B', 'pwc_hist_acc_co.B', 'pwl_hist_acc_fa.B', 'pwl_hist_acc_co.B', 'pwc_hist_eval.B', 'pwl_hist_eval.B']),
-        technique='inductive VCs for the piecewise-constant merge (py + pyx); bounded symbolic execution for the linear merge and the class methods',
-        explanation='add_piece_wise_const proved for all inputs (incl. vectorised tail copies / Cython tail loops); linear merge and the '
+        groups=both(['addpwc_py.P', 'addpwc_pyx.P', 'addpwl_py.P', 'addpwl_pyx.P', 'addpwc_py.B', 'addpwl_py.B', 'addpwl_pyx.B', 'pwc_mul.B', 'pwc_copy.B', 'pwc_add_fb.B', 'pwc_add_cy.B', 'pwl_mul.B', 'pwl_copy.B', 'pwl_add_fb.B', 'pwl_add_cy.B', 'disc_mul.B', 'disc_copy.B', 'disc_add_fb.B', 'disc_add_cy.B', 'pwc_hist_copy.B', 'pwl_hist_copy.B', 'pwc_hist_acc_fa.B', 'pwc_hist_acc_co.B', 'pwl_hist_acc_fa.B', 'pwl_hist_acc_co.B', 'pwc_hist_eval.B', 'pwl_hist_eval.B']),
+        technique='inductive VCs for the piecewise-constant and the piecewise-linear merge (py + pyx; interpolation with products / quotients abstracted to uninterpreted functions plus ground laws); bounded symbolic execution for the class methods',
+        explanation='add_piece_wise_const and add_piece_wise_lin proved for all inputs (incl. vectorised tail copies / Cython tail loops): every result piece has covering operand pieces and both one-sided limits are the sums of the operands\' lines; the linear merge additionally bounded against the same statement with interpreted arithmetic; the '
                     'add / mul_scalar / copy methods bounded, result arrays never alias an operand; histories (add; mul_scalar; add again - copy; scale the original) executed over the real classes; frame obligations show the operand is not modified',
     ),
     'C10': dict(
@@ -90,16 +99,21 @@ PROPS = {
     ),
     'C11': dict(
         title='Discrete profiles add by event and integrate over open intervals', level='other',
-        groups=both(['adddisc_py.B', 'adddisc_pyx.B', 'disc_integral.B', 'disc_avrg.B', 'disc_plot.B', 'disc_smooth.B']),
-        technique='bounded symbolic execution of the real kernel / methods against the event-wise definition',
-        explanation='merge of events with summed values / multiplicities, open-interval selection, ratio with empty convention, k=0 plottable '
+        groups=both(['adddisc_py.P', 'adddisc_pyx.P', 'adddisc_py.B', 'adddisc_pyx.B', 'disc_integral.B', 'disc_avrg.B', 'disc_plot.B', 'disc_smooth.B']),
+        technique='inductive VCs for the event merge (py + pyx, cursor form); bounded symbolic execution of the kernel against the literal event-wise definition and of the methods',
+        explanation='add_discrete_function proved for all inputs: cursors run from the first to the last event in steps of at most one, each advancing step emits exactly that event, values / multiplicities summed where both advance, a non-advancing operand has no event at that time, events strictly increasing; merge of events with summed values / multiplicities, open-interval selection, ratio with empty convention, k=0 plottable '
                     'data; smoothing window k>0 with concrete integer multiplicities',
     ),
     'C12': dict(
+        assumptions=['SPIKE scan proof (spike_*.P): get_min_dist is replaced by its contract (result = the opaque nearest-spike distance MD(tau), of which '
+                     '0 <= MD(tau) <= |tau - e| for every spike e of the other train is revealed; the contract itself is proved in gmd_*.P, its precondition is an '
+                     'obligation at every call); dist_at_t is replaced by its contract (value equation, proved in dist_at_t_*.P; precondition obliged at every call); '
+                     'products / quotients of two symbolic reals are uninterpreted (MUL/DIV) with ground instances of valid real-arithmetic laws (pv/ufarith.py) - '
+                     'an abstraction that can only lose proofs, not create them'],
         title='Compiled and fallback backends agree', level='other',
         groups=both(['isi_py.P', 'isi_pyx.P', 'gmd_py.P', 'gmd_prof_pyx.P', 'gmd_dist_pyx.P', 'dist_at_t_py.P', 'dist_at_t_prof_pyx.P', 'dist_at_t_dist_pyx.P',
-                     'get_tau_py.P', 'get_tau_pyx.P', 'addpwc_py.P', 'addpwc_pyx.P', 'sync_py.P', 'sync_pyx.P', 'order_py.P', 'order_pyx.P', 'dir_py.P', 'dir_pyx.P', 'spike_py.B', 'spike_pyx.B', 'sync_py.B', 'sync_pyx.B',
-                     'single_py.B', 'single_pyx.B', 'order_py.B', 'order_pyx.B', 'dir_py.B', 'dir_pyx.B', 'addpwl_py.B', 'addpwl_pyx.B',
+                     'get_tau_py.P', 'get_tau_pyx.P', 'addpwc_py.P', 'addpwc_pyx.P', 'sync_py.P', 'sync_pyx.P', 'order_py.P', 'order_pyx.P', 'dir_py.P', 'dir_pyx.P'] + SPIKEP + ['spike_py.B', 'spike_pyx.B', 'sync_py.B', 'sync_pyx.B',
+                     'single_py.B', 'single_pyx.B', 'order_py.B', 'order_pyx.B', 'dir_py.B', 'dir_pyx.B', 'addpwl_py.P', 'addpwl_pyx.P', 'adddisc_py.P', 'adddisc_pyx.P', 'addpwl_py.B', 'addpwl_pyx.B',
                      'adddisc_py.B', 'adddisc_pyx.B', 'isidist_pyx.B', 'spikedist_pyx.B', 'syncval_pyx.B', 'orderval_pyx.B', 'dirval_pyx.B']),
         technique='both members of every routine pair verified against the same functional contract (P where proved, B otherwise); .pyx as mechanically extracted text',
         explanation='each pair shares one postcondition that determines the result, so agreement follows; single-pass distances against the '
@@ -143,8 +157,13 @@ PROPS = {
                     'indicator call per ordered pair with the given max_tau / MRTS; the indicator agrees with the pairwise definition (C03)',
     ),
     'C18': dict(
+        assumptions=['SPIKE scan proof (spike_*.P): get_min_dist is replaced by its contract (result = the opaque nearest-spike distance MD(tau), of which '
+                     '0 <= MD(tau) <= |tau - e| for every spike e of the other train is revealed; the contract itself is proved in gmd_*.P, its precondition is an '
+                     'obligation at every call); dist_at_t is replaced by its contract (value equation, proved in dist_at_t_*.P; precondition obliged at every call); '
+                     'products / quotients of two symbolic reals are uninterpreted (MUL/DIV) with ground instances of valid real-arithmetic laws (pv/ufarith.py) - '
+                     'an abstraction that can only lose proofs, not create them'],
         title='Every valid input yields a finite, well-formed result without error', level='other',
-        groups=both(['plumb.degenerate', 'isi_py.P', 'isi_pyx.P', 'spike_py.B', 'spike_pyx.B', 'sync_py.B', 'order_py.B', 'dir_py.B',
+        groups=both(['plumb.degenerate', 'isi_py.P', 'isi_pyx.P'] + SPIKEP + ['spike_py.B', 'spike_pyx.B', 'sync_py.B', 'order_py.B', 'dir_py.B',
                      'isidist_pyx.B', 'spikedist_pyx.B', 'isilen.B', 'thresh.B', 'nonempty.P']),
         technique='safety obligations (index bounds, asserts, finiteness flags, no exception) of all kernels + wrappers on formal terms over all emptiness patterns',
         explanation='kernel safety and well-formedness clauses incl. one-spike, edge and identical trains; public functions on every pattern of '
